@@ -115,33 +115,55 @@ def _function_table_default():
 
 
 def _complete_handler_table():
-    """ExcelModel.complete: the try around add_book / add_sheet catches every Exception, replaces the node by a
-    '=#REF!' cell and continues with the next node; a missing reference name becomes a '=#REF!' Ref."""
-    from pyvc.interp import file_ast
-    import formulas.excel as fe
-    tree = file_ast(fe.__file__)[0]
-    fn = next(n for n in _ast.walk(tree) if isinstance(n, _ast.FunctionDef) and n.name == 'complete')
-    tries = [n for n in _ast.walk(fn) if isinstance(n, _ast.Try)]
-
-    def calls(node):
-        return {_ast.unparse(c.func) for c in _ast.walk(node) if isinstance(c, _ast.Call)}
-    ok_book = ok_ref = False
-    for t in tries:
-        body_calls = set().union(*[calls(s) for s in t.body])
-        for h in t.handlers:
-            hsrc = '\n'.join(_ast.unparse(s) for s in h.body)
-            cont = any(isinstance(s, _ast.Continue) for s in h.body)
-            if {'self.add_book', 'self.add_sheet'} <= body_calls and isinstance(h.type, _ast.Name) and h.type.id == 'Exception':
-                ok_book = ok_book or ("Cell(n_id, '=#REF!').compile().add(self.dsp)" in hsrc and cont)
-            if 'Ranges.get_range' in body_calls and isinstance(h.type, _ast.Name) and h.type.id == 'InvalidRangeName':
-                ok_ref = ok_ref or ("Ref(n_id, '=#REF!').compile().add(self.dsp)" in hsrc and cont)
-    return [
-        dict(name='T:complete/missing-book-or-sheet-becomes-REF-and-completion-continues', ok=ok_book, kind='P',
-             detail='the handler around add_book/add_sheet must catch Exception, add a =#REF! cell for the node and continue',
-             witness="a cell referring to ='[gone.xlsx]Sheet1'!A1"),
-        dict(name='T:complete/unparsable-reference-becomes-REF-and-completion-continues', ok=ok_ref, kind='P',
-             detail='the InvalidRangeName handler must add a =#REF! Ref for the node and continue', witness='a cell referring to an undefined name'),
-    ]
+    """Ground facts about the real ExcelModel.complete (behavioural, independent of how its handlers are written): whatever
+    exception opening a linked workbook or sheet raises, completion continues and the node becomes a #REF! cell; a node whose
+    name is no reference becomes a #REF! reference."""
+    import logging
+    import zipfile
+    import xml.etree.ElementTree as ET
+    import formulas
+    from formulas.tokens.operand import XlError
+    out = []
+    logging.disable(logging.CRITICAL)
+    try:
+        kinds = [OSError('gone'), KeyError('Sheet9'), ValueError('bad'), zipfile.BadZipFile('not a zip'), ET.ParseError('xml'),
+                 RuntimeError('x'), ZeroDivisionError(), AttributeError('a'), IndexError('i')]
+        bad = []
+        for exc in kinds:
+            class M(formulas.ExcelModel):
+                def add_book(self, book=None, context=None, data_only=False):
+                    raise exc
+            m = M()
+            node = "'[gone.xlsx]SHEET1'!A1"
+            other = "'[main.xlsx]S'!B1"
+            try:
+                m.from_dict({other: "=%s+1" % node, "'[main.xlsx]S'!C1": 5}, assemble=False)
+                m.complete()
+                m.finish(complete=False)
+                sol = m.calculate()
+                v = sol[node].value[0, 0] if node in sol else None
+                w = sol[other].value[0, 0]
+                c = sol["'[main.xlsx]S'!C1"].value[0, 0]
+                if not (isinstance(v, XlError) and str(v) == '#REF!' and isinstance(w, XlError) and c == 5):
+                    bad.append('%s: node %r dependent %r other %r' % (type(exc).__name__, v, w, c))
+            except Exception as ex:
+                bad.append('%s escaped as %s' % (type(exc).__name__, type(ex).__name__))
+        out.append(dict(name='T:complete/missing-book-or-sheet-becomes-REF-and-completion-continues', ok=not bad, kind='P',
+                        detail='opening the linked workbook failed with %d kinds of exception; not recovered: %s' % (len(kinds), bad[:4]),
+                        witness="a cell referring to ='[gone.xlsx]Sheet1'!A1"))
+        try:
+            m = formulas.ExcelModel()
+            m.from_dict({"'[main.xlsx]S'!B1": "=UNDEFINED_NAME+1", "'[main.xlsx]S'!C1": 5})
+            sol = m.calculate()
+            w, c = sol["'[main.xlsx]S'!B1"].value[0, 0], sol["'[main.xlsx]S'!C1"].value[0, 0]
+            ok_ref, detail = isinstance(w, XlError) and c == 5, 'dependent %r other %r' % (w, c)
+        except Exception as ex:
+            ok_ref, detail = False, 'raised %s' % type(ex).__name__
+        out.append(dict(name='T:complete/unparsable-reference-becomes-REF-and-completion-continues', ok=ok_ref, kind='P',
+                        detail='a cell referring to an undefined name: ' + detail, witness='a cell referring to an undefined name'))
+    finally:
+        logging.disable(logging.NOTSET)
+    return out
 
 
 def _unknown_spellings_table():
@@ -332,7 +354,7 @@ PROPERTIES = {
             'Partial. Proved: an unknown name maps to a callable that always raises NotImplementedError; the formula dispatcher lets '
             'exactly NotImplementedError / RangeValueError / InvalidRangeError pass; the cell wrapper turns a dispatcher error caused by '
             'NotImplementedError into #NAME? and propagates everything else unchanged. Tables: the default of the function table, the '
-            'two recovery handlers of ExcelModel.complete (read from the AST). Bounded: single formulas with unresolved items; every subset of seven '
+            'two recovery paths of ExcelModel.complete (the real method run with add_book failing in nine ways). Bounded: single formulas with unresolved items; every subset of seven '
             'faults (absent sheet, absent sheet of a linked workbook, absent file, unreadable file, unknown function, _xlfn. function, undefined name) injected '
             'into one workbook: it loads and calculates, healthy cells keep their fault-free values, faulty cells hold interceptable errors.'),
         assumptions=['schedula wraps an exception of a node function into DispatcherError(ex=...) when raises(ex) is true (assumed)'],
